@@ -67,10 +67,18 @@ EntryClasses ==
           : k \in Kinds }
     \cup {[Base("raw") EXCEPT !.mk = "int"], [Base("raw") EXCEPT !.mk = "int", !.db = "d2"]}
     \cup {[Base("lp") EXCEPT !.sz = "mid"], [Base("lp") EXCEPT !.sz = "big"], [Base("batch") EXCEPT !.sz = "mid"]}
+    \* a columnar client batch with more rows than wal.recovery_batch_size whose timestamps are mixed: row 0
+    \* is an ordinary microsecond value, the row at index = batch size is before 1970 ("win" / "mixedwin")
+    \cup {[Base("raw") EXCEPT !.sz = "win", !.ts = "mixedwin"]}
 
-SchedClasses == {Base("raw"), Base("lp"), [Base("lp") EXCEPT !.db = "d2"]}
+Sched3Classes == {Base("raw"), Base("lp"), [Base("lp") EXCEPT !.db = "d2"]}
+\* + adjacency classes: a second columnar write of the same shape to another database, and as controls the
+\* same with another column set (sp = "m") and another measurement (mk = "int" -> measurement_7)
+SchedClasses == Sched3Classes
+                \cup {[Base("raw") EXCEPT !.db = "d2"], [Base("raw") EXCEPT !.db = "d2", !.sp = "m"],
+                      [Base("raw") EXCEPT !.db = "d2", !.mk = "int"]}
 
-ClassSet == IF ClassSel = "entry" THEN EntryClasses ELSE SchedClasses
+ClassSet == CASE ClassSel = "entry" -> EntryClasses [] ClassSel = "sched3" -> Sched3Classes [] OTHER -> SchedClasses
 
 VARIABLES phase,    \* "live" | "down" | "rec" | "done"
           writes,   \* Seq(class): the history so far; the index is the row id
